@@ -85,6 +85,8 @@ def main():
              "kind_free_text": "definitional CESK machine in TLA+ run by TLC on generated programs; outputs of the real interpreter compared by TLC"},
             {"name": "prim", "path": "/verif/spec/Prim.tla", "serves_properties": ["C01"],
              "kind_free_text": "contract table of memory-indexing primitives; TLC-enumerated call space; session trace validation"},
+            {"name": "ctx", "path": "/verif/spec/Ctx.tla", "serves_properties": ["C13"],
+             "kind_free_text": "model of context isolation; pthread harness + trace validation (sampled OS schedules)"},
             {"name": "sched", "path": "/verif/spec/Sched.tla", "serves_properties": ["C11"],
              "kind_free_text": "TLA+ transcription of the green-thread scheduler and SRFI 18 primitives; MC with liveness; trace validation under forced time slices"},
         ],
@@ -104,7 +106,7 @@ def main():
 
 
 NA = {}
-APPROVED = ["C11", "C03", "C05", "C06", "C09", "C01"]
+APPROVED = ["C11", "C03", "C05", "C06", "C09", "C01", "C13"]
 
 if __name__ == "__main__":
     main()
